@@ -29,4 +29,14 @@ CHECKS = {
              'Thorough enumerates all 366^2 date ranges x 366 days and 1440^2 minute-grid time ranges.',
         note='Renderers avoid the two ambiguities the documentation itself warns about; parsing relies on '
              'CPython 3.12 datetime.fromisoformat for the ISO forms.'),
+    'C16': dict(
+        level='exploration', design_ref='DESIGN.md 4/C16',
+        technique=PBT + '; fold model of the filter pipeline, exhaustive Edge truth table, dict-operation model for DataEdit chains (exhaustive <=4 ops in thorough)',
+        text='Generated filter pipelines run through Event.send in a live circuit and are compared with a '
+             'fold model (what every filter saw, what the destination got, send() result); the Edge table is '
+             'enumerated completely in every run; Delta, not_from_undef, IfOutput, NotIfInitialized and '
+             'add_output are checked against their documented predicates by name/object, before start and '
+             'while running; DataEdit chains are compared with plain dict operations.',
+        note='Filters are deterministic callables; the only trusted parts are the probe Recorder block and '
+             'the virtual event loop.'),
 }
